@@ -82,6 +82,18 @@ pub fn family(tier: Tier) -> Vec<RShard> {
             }
         }
     }
+    // a file whose segments sum to more than 2^32 bytes (each fits its 32-bit field): totals are 64-bit
+    for f in [0u8, 3] {
+        let mut big = mk_file(21, [0x77, 0x21, 0, 0], 2, f);
+        for sg in big.segs.iter_mut() {
+            sg.bytes = 3_000_000_000;
+        }
+        let mut s = RShard::default();
+        s.add_file(big);
+        set.insert(s.clone());
+        s.add_file(mk_file(0, al[0], 3, f));
+        set.insert(s);
+    }
     // extreme truncated key
     for f in 0..4u8 {
         let mut s = RShard::default();
